@@ -737,10 +737,27 @@ def _fam_dev(fam, pname, alpha, dname, default, k, feed=None):
         "validate_every": 97,
     }
     if k <= 1:
-        # one prefix-sharing task: L + (|menu|-1) * L^2 / 2 transitions instead of (|menu|-1) * L^2 for the
+        # prefix-sharing tasks: L + (|menu|-1) * L^2 / 2 transitions instead of (|menu|-1) * L^2 for the
         # split form, one snapshot per position; every 97th history is re-executed on a fresh detector
-        return [task]
+        if n < 150:
+            return [task]
+        # long histories: one task per third of the deviation positions (the deviation-free history is in each)
+        return _thirds(task)
     return dev_split(task)
+
+
+def _thirds(task):
+    default, menu, n = task["default"], task["menu"], len(task["default"])
+    out = []
+    cuts = [0, n // 3, 2 * n // 3, n]
+    for a, b in zip(cuts, cuts[1:]):
+        t = dict(task)
+        t["menu"] = [[x for x in menu if x != default[i]] if a <= i < b else [] for i in range(n)]
+        t["menu_per_pos"] = True
+        t["label"] = task["label"] + "|dev@%d-%d" % (a, b - 1)
+        t["cost"] = (len(menu) - 1) * (b - a) * (n - (a + b) // 2) + n
+        out.append(t)
+    return out
 
 
 # families whose drift counter must be positive (ADWIN uses no randomness: none of these depends on VERIF_SEED)
@@ -851,7 +868,7 @@ def _extension_tasks(tier):
         }
         if yfeed:
             t["cfg"]["yfeed"] = yfeed
-        out.append(t)
+        out += _thirds(t)
     return out
 
 
